@@ -10,6 +10,7 @@ import Compass.Proofs.Num
 import Compass.Model.Instance
 import Mathlib.Tactic.IntervalCases
 import Compass.Proofs.SearchDiscipline
+import Compass.Proofs.RouteSums
 
 namespace Compass
 namespace C03
@@ -164,6 +165,176 @@ theorem dijkstra_route_cost_is_label (c : Config α) (hadj : c.AdjConsistent) (h
       (route.map (fun b => b.access + b.traversal)).sum = gt :=
   route_cost_eq_label (c.inst_wf hadj) (config_zeroH c hwf) hts hrun
 
+/-! #### Closed forms (`Proofs/RouteSums`): what the accumulation adds up to
+
+The terms, all total functions of the configuration (`Proofs/RouteSums`):
+`distTerm trav edges fu e` = length of `e` converted base unit → the traversal model's unit → the
+feature's unit `fu`; `timeTerm trav edges ftu e` = the value `create_time` returned for `e` (table
+speed, converted length; speed-table model — `0` under the distance model) converted from the model's
+time unit to the feature's unit `ftu`; `turnDelayTerm c ftu l e` = the delay the table holds for the
+turn classified from the headings of `l` and `e`, converted from the table's unit to `ftu` (`0`
+without turn delays).  `prefixEdges route k` are the edges of the first `k + 1` elements, `pairs` the
+consecutive pairs.  `RouteSums.route_times_defined / route_delays_defined` show that on a returned
+route every `create_time` and every delay lookup returned a value, so no term is a default. -/
+
+open SearchDiscipline in
+/-- the route a Dijkstra run returns satisfies the link relation of `Proofs/RouteSums` -/
+theorem dijkstra_route_links (c : Config α) (hadj : c.AdjConsistent) (hwf : c.wf = some 0)
+    {source t : Nat} {sched : List Nat} {res : SearchResult α} (hts : t ≠ source)
+    (hrun : runVertexOriented c.inst source (some t) sched = .ok res) :
+    ∃ route, res.route = some route ∧ route ≠ [] ∧ RouteSums.Accumulates c route := by
+  obtain ⟨route, h1, h2, _, h4⟩ := config_route_links_fresh c hadj hwf hts hrun
+  exact ⟨route, h1, h2, RouteSums.accumulates_of_linksFresh c route h4⟩
+
+/-- Dijkstra, every configuration (any traversal model, any access model, any units, forward or
+reverse): the distance reported at route element `k` is the declared initial value plus the sum of
+the lengths of the first `k + 1` edges, expressed in the feature's unit; every edge exists. -/
+theorem dijkstra_route_distance_is_sum (c : Config α) (hadj : c.AdjConsistent) (hwf : c.wf = some 0)
+    {source t : Nat} {sched : List Nat} {res : SearchResult α} (hts : t ≠ source)
+    (hrun : runVertexOriented c.inst source (some t) sched = .ok res)
+    {i : Nat} {fu : DistanceUnit} (hi : featIndex c.feats "distance" = some i)
+    (hk : (c.feats[i]?).map (·.kind) = some (FeatKind.dist fu)) :
+    ∃ route f, res.route = some route ∧ route ≠ [] ∧ c.feats[i]? = some f ∧
+      (∀ k (hk : k < route.length), ∃ er, c.edges[route[k].edge]? = some er) ∧
+      ∀ k (hk : k < route.length),
+        route[k].state[i]? = some (f.init +
+          ((RouteSums.prefixEdges route k).map (RouteSums.distTerm c.trav c.edges fu)).sum) := by
+  obtain ⟨route, h1, h2, hacc⟩ := dijkstra_route_links c hadj hwf hts hrun
+  obtain ⟨f, hf, hdef, hsum⟩ := RouteSums.route_distance_is_sum hacc ⟨hi, hk⟩
+  exact ⟨route, f, h1, h2, hf, hdef, hsum⟩
+
+/-- Dijkstra, every configuration: the time reported at route element `k` is the declared initial
+value plus the traversal times of the first `k + 1` edges plus the delay of each of the `k` turns
+between them, each once, everything in the feature's unit. -/
+theorem dijkstra_route_time_is_sum (c : Config α) (hadj : c.AdjConsistent) (hwf : c.wf = some 0)
+    {source t : Nat} {sched : List Nat} {res : SearchResult α} (hts : t ≠ source)
+    (hrun : runVertexOriented c.inst source (some t) sched = .ok res)
+    {j : Nat} {ftu : TimeUnit} (hj : featIndex c.feats "time" = some j)
+    (hk : (c.feats[j]?).map (·.kind) = some (FeatKind.time ftu)) :
+    ∃ route f, res.route = some route ∧ route ≠ [] ∧ c.feats[j]? = some f ∧
+      ∀ k (hk : k < route.length),
+        route[k].state[j]? = some (f.init +
+          ((RouteSums.prefixEdges route k).map (RouteSums.timeTerm c.trav c.edges ftu)).sum +
+          ((RouteSums.pairs (RouteSums.prefixEdges route k)).map
+            (fun p => RouteSums.turnDelayTerm c ftu p.1 p.2)).sum) := by
+  obtain ⟨route, h1, h2, hacc⟩ := dijkstra_route_links c hadj hwf hts hrun
+  obtain ⟨f, hf, hsum⟩ := RouteSums.route_time_is_sum hacc ⟨hj, hk⟩
+  exact ⟨route, f, h1, h2, hf, hsum⟩
+
+/-- Dijkstra, every configuration with non-negative edge lengths and non-negative configured turn
+delays: distance and time never decrease from the initial state to the first route element nor from
+one route element to the next (table speeds need no
+hypothesis: `create_time` fails the run on a non-positive speed or length). -/
+theorem dijkstra_route_monotone (c : Config α) (hadj : c.AdjConsistent) (hwf : c.wf = some 0)
+    {source t : Nat} {sched : List Nat} {res : SearchResult α} (hts : t ≠ source)
+    (hrun : runVertexOriented c.inst source (some t) sched = .ok res)
+    {i : Nat} {fu : DistanceUnit} (hi : featIndex c.feats "distance" = some i)
+    (hik : (c.feats[i]?).map (·.kind) = some (FeatKind.dist fu))
+    {j : Nat} {ftu : TimeUnit} (hj : featIndex c.feats "time" = some j)
+    (hjk : (c.feats[j]?).map (·.kind) = some (FeatKind.time ftu))
+    (hlen : ∀ er ∈ c.edges, 0 ≤ er.dist) (hdel : RouteSums.DelaysNonneg c.access) :
+    ∃ route, res.route = some route ∧ route ≠ [] ∧
+      (∀ (hr : 0 < route.length),
+        (∀ x y, (initialState c.feats)[i]? = some x → route[0].state[i]? = some y → x ≤ y) ∧
+        (∀ x y, (initialState c.feats)[j]? = some x → route[0].state[j]? = some y → x ≤ y)) ∧
+      ∀ k (hk : k + 1 < route.length),
+        (∀ x y, route[k].state[i]? = some x → route[k + 1].state[i]? = some y → x ≤ y) ∧
+        (∀ x y, route[k].state[j]? = some x → route[k + 1].state[j]? = some y → x ≤ y) := by
+  obtain ⟨route, h1, h2, hacc⟩ := dijkstra_route_links c hadj hwf hts hrun
+  exact ⟨route, h1, h2,
+    fun hr => ⟨(RouteSums.route_distance_monotone hacc ⟨hi, hik⟩ hlen).1 hr,
+      (RouteSums.route_time_monotone hacc ⟨hj, hjk⟩ hdel).1 hr⟩,
+    RouteSums.route_monotone hacc ⟨hi, hik⟩ ⟨hj, hjk⟩ hlen hdel⟩
+
+/-- Dijkstra, every configuration: every slot other than "distance" and "time" reports its declared
+initial value on every route element. -/
+theorem dijkstra_route_other_slots (c : Config α) (hadj : c.AdjConsistent) (hwf : c.wf = some 0)
+    {source t : Nat} {sched : List Nat} {res : SearchResult α} (hts : t ≠ source)
+    (hrun : runVertexOriented c.inst source (some t) sched = .ok res)
+    {j : Nat} (hjd : featIndex c.feats "distance" ≠ some j) (hjt : featIndex c.feats "time" ≠ some j) :
+    ∃ route, res.route = some route ∧ route ≠ [] ∧
+      ∀ k (hk : k < route.length), route[k].state[j]? = (c.feats[j]?).map (·.init) := by
+  obtain ⟨route, h1, h2, hacc⟩ := dijkstra_route_links c hadj hwf hts hrun
+  exact ⟨route, h1, h2, RouteSums.other_slots_unchanged hacc hjd hjt⟩
+
+/-- Dijkstra, every configuration: the route summary (state of the last element) is the closed form
+over the whole route. -/
+theorem dijkstra_route_summary (c : Config α) (hadj : c.AdjConsistent) (hwf : c.wf = some 0)
+    {source t : Nat} {sched : List Nat} {res : SearchResult α} (hts : t ≠ source)
+    (hrun : runVertexOriented c.inst source (some t) sched = .ok res)
+    {i : Nat} {fu : DistanceUnit} (hi : featIndex c.feats "distance" = some i)
+    (hik : (c.feats[i]?).map (·.kind) = some (FeatKind.dist fu))
+    {j : Nat} {ftu : TimeUnit} (hj : featIndex c.feats "time" = some j)
+    (hjk : (c.feats[j]?).map (·.kind) = some (FeatKind.time ftu)) :
+    ∃ route s fd ft, res.route = some route ∧ RouteSums.routeSummary route = some s ∧
+      c.feats[i]? = some fd ∧ c.feats[j]? = some ft ∧
+      s[i]? = some (fd.init + ((route.map (·.edge)).map (RouteSums.distTerm c.trav c.edges fu)).sum) ∧
+      s[j]? = some (ft.init + ((route.map (·.edge)).map (RouteSums.timeTerm c.trav c.edges ftu)).sum
+            + ((RouteSums.pairs (route.map (·.edge))).map
+                (fun p => RouteSums.turnDelayTerm c ftu p.1 p.2)).sum) ∧
+      ∀ l, featIndex c.feats "distance" ≠ some l → featIndex c.feats "time" ≠ some l →
+        s[l]? = (c.feats[l]?).map (·.init) := by
+  obtain ⟨route, h1, h2, hacc⟩ := dijkstra_route_links c hadj hwf hts hrun
+  obtain ⟨s, fd, ft, hs, hfd, hft, hd, ht, ho⟩ :=
+    RouteSums.summary_closed_form hacc h2 ⟨hi, hik⟩ ⟨hj, hjk⟩
+  exact ⟨route, s, fd, ft, h1, hs, hfd, hft, hd, ht, ho⟩
+
+/-- the distance statement with the values written out: `lens` are the stored lengths of the
+route's edges; distance at element `k` = initial value + Σ of the first `k + 1` lengths, each
+converted base unit → the traversal model's unit `du` → the feature's unit `fu` — equivalently the
+total length converted once. -/
+theorem dijkstra_route_distance_is_sum_explicit (c : Config α) (hadj : c.AdjConsistent)
+    (hwf : c.wf = some 0) {source t : Nat} {sched : List Nat} {res : SearchResult α} (hts : t ≠ source)
+    (hrun : runVertexOriented c.inst source (some t) sched = .ok res)
+    {i : Nat} {fu : DistanceUnit} (hi : featIndex c.feats "distance" = some i)
+    (hk : (c.feats[i]?).map (·.kind) = some (FeatKind.dist fu)) :
+    ∃ (route : List (Branch α)) (f : Feat α) (lens : List α), res.route = some route ∧ route ≠ [] ∧
+      c.feats[i]? = some f ∧ lens.length = route.length ∧
+      (∀ k (hk : k < route.length), ∃ er, c.edges[route[k].edge]? = some er ∧
+        lens[k]? = some er.dist) ∧
+      ∀ k (hk : k < route.length),
+        route[k].state[i]? = some (f.init + ((lens.take (k + 1)).map (fun len =>
+          (RouteSums.travDu c.trav).convert fu
+            (baseDistanceUnit.convert (RouteSums.travDu c.trav) len))).sum) ∧
+        route[k].state[i]? = some (f.init + (RouteSums.travDu c.trav).convert fu
+          (baseDistanceUnit.convert (RouteSums.travDu c.trav) (lens.take (k + 1)).sum)) := by
+  obtain ⟨route, h1, h2, hacc⟩ := dijkstra_route_links c hadj hwf hts hrun
+  obtain ⟨f, lens, hf, hl, hdef, hsum⟩ :=
+    RouteSums.route_distance_is_sum_explicit hacc ⟨hi, hk⟩ rfl
+  exact ⟨route, f, lens, h1, h2, hf, hl, hdef, hsum⟩
+
+/-- the time statement with the values written out, speed-table model with turn delays:
+`times[k]` is what `create_time` returned for edge `k` (its table speed in `su`, its length in `du`,
+result in `tu`), `dls[k]` what the delay table returned for the turn from edge `k` to edge `k + 1`
+(the pair is swapped in a reverse search: `prevEdge` / `nextEdge`); time at element `k` = initial
+value + the first `k + 1` times + the first `k` delays, each converted to the feature's unit. -/
+theorem dijkstra_route_time_is_sum_explicit (c : Config α) (hadj : c.AdjConsistent)
+    (hwf : c.wf = some 0) {source t : Nat} {sched : List Nat} {res : SearchResult α} (hts : t ≠ source)
+    (hrun : runVertexOriented c.inst source (some t) sched = .ok res)
+    {j : Nat} {ftu : TimeUnit} (hj : featIndex c.feats "time" = some j)
+    (hk : (c.feats[j]?).map (·.kind) = some (FeatKind.time ftu))
+    {su : SpeedUnit} {du : DistanceUnit} {tu : TimeUnit} {ms : α} {table : List α}
+    (htrav : c.trav = .speed su du tu ms table)
+    {dtu : TimeUnit} {headings : List (Int × Option Int)} {delays : List (Option α)}
+    (hac : c.access = .turnDelay dtu headings delays) :
+    ∃ (route : List (Branch α)) (f : Feat α) (times dls : List α), res.route = some route ∧
+      route ≠ [] ∧ c.feats[j]? = some f ∧
+      times.length = route.length ∧ dls.length = route.length - 1 ∧
+      (∀ k (hk : k < route.length), ∃ er sp tv, c.edges[route[k].edge]? = some er ∧
+        table[route[k].edge]? = some sp ∧
+        createTime sp su (baseDistanceUnit.convert du er.dist) du tu = some tv ∧
+        times[k]? = some tv) ∧
+      (∀ k (hk : k + 1 < route.length), ∃ d,
+        turnDelayOf headings delays (RouteSums.prevEdge c route[k].edge route[k + 1].edge)
+          (RouteSums.nextEdge c route[k].edge route[k + 1].edge) = some d ∧ dls[k]? = some d) ∧
+      ∀ k (hk : k < route.length),
+        route[k].state[j]? = some (f.init + ((times.take (k + 1)).map (tu.convert ftu)).sum
+          + ((dls.take k).map (dtu.convert ftu)).sum) := by
+  obtain ⟨route, h1, h2, hacc⟩ := dijkstra_route_links c hadj hwf hts hrun
+  obtain ⟨f, times, dls, hf, ht, hd, htd, hdd, hsum⟩ :=
+    RouteSums.route_time_is_sum_speed_turnDelay hacc ⟨hj, hk⟩ htrav hac
+  exact ⟨route, f, times, dls, h1, h2, hf, ht, hd, htd, hdd, hsum⟩
+
 /- Full statement ("for every algorithm") is FALSE of model and code for A* runs whose estimate is
 inconsistent for the network: see known_findings.txt key route/stale-link-after-reopening and the
 5-vertex witness in harness/src/searchprops.rs (`stale_link_witness`); the theorem above is the
@@ -226,6 +397,51 @@ example : addDistance [⟨"distance", .dist .meters, (0 : ℚ)⟩] [5] "distance
   decide +kernel
 example : bearing (10, some 10) (350, none) = -20 := by decide
 example : bearing (350, none) (10, none) = 20 := by decide
+
+/-- `staleConfig` run as Dijkstra (`weight_factor = 0`) -/
+def dijkstraConfig : Config ℚ := { staleConfig with wf := some 0 }
+
+/-- the closed forms on the Dijkstra route s→w→u→v→t of `dijkstraConfig` (edges 1, 2, 3, 4; a 2000 s
+delay for the right turn onto the third edge): the hypotheses of the route-level theorems are met,
+the link relation holds, the summary is distance 400 and time 2000, and that is what the closed
+forms evaluate to — four lengths of 100 m, no traversal time under the distance model, and the one
+non-zero delay counted once. -/
+example : ∃ res route, runVertexOriented dijkstraConfig.inst 0 (some 4) [0, 1, 2, 3, 4] = .ok res ∧
+    res.route = some route ∧ route.map (·.edge) = [1, 2, 3, 4] ∧
+    RouteSums.Accumulates dijkstraConfig route ∧
+    RouteSums.routeSummary route = some [400, 2000] ∧
+    (0 : ℚ) + (([1, 2, 3, 4] : List Nat).map
+      (RouteSums.distTerm dijkstraConfig.trav dijkstraConfig.edges .meters)).sum = 400 ∧
+    (0 : ℚ) + (([1, 2, 3, 4] : List Nat).map
+      (RouteSums.timeTerm dijkstraConfig.trav dijkstraConfig.edges .seconds)).sum +
+      ((RouteSums.pairs [1, 2, 3, 4]).map
+        (fun p => RouteSums.turnDelayTerm dijkstraConfig .seconds p.1 p.2)).sum = 2000 := by
+  have hadj : dijkstraConfig.AdjConsistent := by
+    intro v e he
+    match v with
+    | 0 => simp [Config.inst, dijkstraConfig, staleConfig] at he; rcases he with rfl | rfl <;> rfl
+    | 1 => simp [Config.inst, dijkstraConfig, staleConfig] at he; subst he; rfl
+    | 2 => simp [Config.inst, dijkstraConfig, staleConfig] at he; subst he; rfl
+    | 3 => simp [Config.inst, dijkstraConfig, staleConfig] at he; subst he; rfl
+    | 4 => simp [Config.inst, dijkstraConfig, staleConfig] at he
+    | n + 5 => simp [Config.inst, dijkstraConfig, staleConfig] at he
+  have hstates : routeStatesOf (dijkstraConfig.runVertex 0 (some 4) [0, 1, 2, 3, 4]) =
+      some [[(1, [100, 0]), (2, [200, 0]), (3, [300, 2000]), (4, [400, 2000])]] := by
+    decide +kernel
+  cases hrun : runVertexOriented dijkstraConfig.inst 0 (some 4) [0, 1, 2, 3, 4] with
+  | error k => simp [Config.runVertex, hrun, routeStatesOf] at hstates
+  | ok res =>
+    obtain ⟨route, hr, _, hacc⟩ := dijkstra_route_links dijkstraConfig hadj rfl (by decide) hrun
+    simp only [Config.runVertex, hrun, hr, routeStatesOf, List.map_cons, List.map_nil,
+      Option.some.injEq, List.cons.injEq, and_true] at hstates
+    refine ⟨res, route, rfl, hr, ?_, hacc, ?_, by decide +kernel, by decide +kernel⟩
+    · have := congrArg (List.map Prod.fst) hstates
+      simpa [List.map_map, Function.comp_def] using this
+    · have h1 : RouteSums.routeSummary route =
+          ((route.map (fun b => (b.edge, b.state))).getLast?).map (·.2) := by
+        simp [RouteSums.routeSummary, List.getLast?_map, Function.comp_def]
+      rw [h1, hstates]
+      rfl
 
 end C03
 end Compass
